@@ -236,17 +236,37 @@ class Cloner:
 
         # Remap object-bound sharding references to the cloned values so the
         # cloned node's device configurations point at the cloned graph's values.
+        # A spec targets an input or output of its node: remap it through the
+        # correspondence of *this* node's inputs and outputs (not through the global
+        # value map, which cloning the node's subgraphs may have extended with a value
+        # that was resolved as an outer-scope input above), so that the spec follows
+        # the value the cloned node actually uses.
+        io_map: dict[_core.Value, _core.Value | None] = {}
+        for input, new_input in zip(node.inputs, new_inputs):
+            if input is not None:
+                io_map[input] = new_input
+        for output, new_output in zip(node.outputs, new_node.outputs):
+            io_map[output] = new_output
         new_node.device_configurations = self._remap_device_configurations(
-            new_node.device_configurations
+            new_node.device_configurations, io_map
         )
 
         self._post_process(new_node)
         return new_node
 
-    def _remap_device_configurations(self, device_configurations: tuple) -> tuple:
-        """Rewrite ``ShardingSpec.value`` references through the value map."""
+    def _remap_device_configurations(
+        self,
+        device_configurations: tuple,
+        value_map: Mapping[_core.Value, _core.Value | None] | None = None,
+    ) -> tuple:
+        """Rewrite ``ShardingSpec.value`` references through ``value_map``.
+
+        ``value_map`` defaults to the cloner's global value map.
+        """
         if not device_configurations:
             return device_configurations
+        if value_map is None:
+            value_map = self._value_map
 
         new_configurations = []
         changed = False
@@ -254,11 +274,15 @@ class Cloner:
             new_specs = []
             spec_changed = False
             for spec in configuration.sharding_specs:
-                if spec.value is None or spec.value not in self._value_map:
-                    # No mapping (e.g. an outer-scope value): keep as-is.
+                if spec.value is None or spec.value not in value_map:
+                    # No mapping (a value that is not an input/output of the node): keep as-is.
                     new_specs.append(spec)
                     continue
-                mapped = self._value_map[spec.value]
+                mapped = value_map[spec.value]
+                if mapped is spec.value:
+                    # An outer-scope value that is passed through unchanged.
+                    new_specs.append(spec)
+                    continue
                 if mapped is None:
                     # The value was dropped from the clone; drop the now-dangling
                     # spec rather than emitting an unserializable value=None spec.
